@@ -667,7 +667,22 @@ class Sim:
         u.answered = True  # delivered from here on
         # was the job still in the scheduler's queue when its reply arrived?
         self.reply_job_queued = any(j.tag == u.jobid for j in self.sched.que)
-        message.send(resp, sock)
+        if getattr(self, 'tgtfault_armed', False) and hasattr(
+                self.db, 'fail_targets'):
+            # the fault hits the farm while it handles this reply
+            self.db.fail_targets = 1
+            self.tgtfault_armed = False
+        try:
+            message.send(resp, sock)
+        except world.InjectedFault as exc:
+            # an exception that escapes dataReceived: twisted logs it and
+            # drops the connection (the farm's own handlers did not see it)
+            self.errors.append(('injected', 'escaped dataReceived',
+                                repr(exc)))
+            sock.close(clean=False)
+        finally:
+            if hasattr(self.db, 'fail_targets'):
+                self.db.fail_targets = 0
         return u, newset
 
     def execute(self, k):
@@ -921,6 +936,9 @@ class Sim:
             # the next db.next() fails once (database briefly unavailable)
             if hasattr(self.db, 'fail_next'):
                 self.db.fail_next = 1
+        elif kind == 'tgtfault':
+            # db.targets() fails once while the farm handles the next reply
+            self.tgtfault_armed = True
         elif kind == 'timer':
             # let time pass: to the next armed timer (op[1] == 0) or by a
             # fixed amount; due timers run schedule.defer
@@ -1106,7 +1124,7 @@ def op_strategy(weights=None):
         'tick': 2, 'rep': 2, 'req': 2, 'join': 1, 'leave': 0, 'tgt': 1,
         'pause': 0, 'active': 0, 'rereq': 1, 'auto': 9,
         'auto2': 8, 'requp': 1, 'status': 0, 'reload': 0, 'archived': 0,
-        'joinx': 0, 'timer': 0, 'dbfault': 0,
+        'joinx': 0, 'timer': 0, 'dbfault': 0, 'tgtfault': 0,
     }
     w.update(weights or {})
     small = st.integers(0, 7)
@@ -1144,6 +1162,7 @@ def op_strategy(weights=None):
     choices += [st.tuples(st.just('reload'), small).map(list)] * w['reload']
     choices += [st.just(['archived'])] * w['archived']
     choices += [st.just(['dbfault'])] * w['dbfault']
+    choices += [st.just(['tgtfault'])] * w['tgtfault']
     choices += [st.tuples(st.just('timer'),
                           st.sampled_from([0, 0, 0, 0, 1, 2, 3])).map(list)
                 ] * w['timer']
